@@ -4,7 +4,7 @@
    the API calls; all schedules = all label sequences; repaired code, fixes/C17.patch).
    Specification: spec/SeederSpec.v. *)
 From Coq Require Import NArith List Bool.
-From LV Require Import model.Seeder spec.SeederSpec proofs.SeederProofs proofs.SeederQueues proofs.SeederSessions proofs.SeederLifetime proofs.SeederCounts.
+From LV Require Import model.Seeder spec.SeederSpec proofs.SeederProofs proofs.SeederQueues proofs.SeederSessions proofs.SeederLifetime proofs.SeederCounts proofs.SeederRefine.
 Import ListNotations.
 Local Open Scope N_scope.
 
@@ -16,14 +16,18 @@ Theorem C17_limits : forall v cfg db ops r,
   limits_ok (r_num (rs_req r)) (r_size (rs_req r)) (rs_items r) = true.
 Proof. exact sent_limits. Qed.
 
-(* Pending memory: in every reachable state (every schedule, both code variants) the counter
-   equals the memory of the responses enqueued and not yet sent, and exceeds the configured
-   limit by less than the memory of one of those responses. *)
+(* Pending memory, with the accounting of the code: the reader adds a response's memory BEFORE
+   it calls Enqueue (which blocks while the sender's task channel is full), a sender worker
+   subtracts it after sendChunk.  In every reachable state (every schedule, both code variants)
+   the counter equals the memory of the responses accounted for and not yet acknowledged
+   (queued, being sent, or added and waiting in Enqueue), and exceeds the configured limit by
+   less than the memory of one of them.  (The state between sendChunk and the subtraction has
+   the pending size of the state before the ODeliver label.) *)
 Theorem C17_pending_bound : forall v cfg db ops,
   let st := fst (run v cfg db (init cfg) ops) in
-  st_pending st = mem_sum cfg (concat (st_senders st)) /\
+  st_pending st = mem_sum cfg (accounted st) /\
   (st_pending st = 0 \/
-   exists r, In r (concat (st_senders st)) /\ st_pending st < c_limit cfg + resp_mem cfg r).
+   exists r, In r (accounted st) /\ st_pending st < c_limit cfg + resp_mem cfg r).
 Proof. exact pending_bounded. Qed.
 
 (* Per-incarnation FIFO: whatever the sender workers' schedule, the responses of an incarnation
@@ -103,20 +107,49 @@ Theorem C17_resume_no_creation : forall cfg st rq ss,
   \/ snd (reader_top v_fixed cfg st rq) = [EMisb (r_peer rq) (r_serial rq)] /\ s_orig ss <> r_start rq.
 Proof. exact resume_no_creation. Qed.
 
+(* The lifetime rule that the executable specification applies to the implementation's logs
+   (SeederSpec.life_step, folded by [lifetimes]: a request resumes the peer's live session with
+   that id, is a mismatch when its selector differs, otherwise opens a new session and, when the
+   peer already holds three, drops the OLDEST; an unregistration drops all) simulates the model:
+   at every reachable state a rule state is related to the model state (per peer the same
+   session ids in the same order with the same creators and selector starts), and the reader's
+   processing of a request or an unregistration moves both in lockstep with the predicted
+   outcome. *)
+Theorem C17_lifetime_simulation : forall cfg db ops,
+  sorted_keys db ->
+  let st := fst (run v_fixed cfg db (init cfg) ops) in
+  exists m, life_rel m st /\
+    (forall rq, st_reader st = RTop rq ->
+       let '(st', evs) := reader_top v_fixed cfg st rq in
+       let '(m', e) := life_step (c_maxchunks cfg) m (SReq rq) in
+       life_rel m' st' /\ outcome_agrees e rq st' evs) /\
+    (forall p rest, st_reader st = RIdle -> st_chunreg st = p :: rest ->
+       exists st' evs, step v_fixed cfg db st OReadUnreg = Some (st', evs) /\
+                       life_rel (fst (life_step (c_maxchunks cfg) m (SUnreg p))) st').
+Proof. exact lifetime_simulation. Qed.
+
 (* Chunk counts (repaired code).  Whenever the reader is between two requests, every request
-   that produced a response got exactly as many responses as chunks it asked for, or its
-   session has finished (the incarnation has its done response): "exactly one done response
-   once enough chunks were requested", together with C17_session_content. *)
+   that produced a response got exactly as many responses as chunks it asked for, or the done
+   response of its session was produced by this request or an EARLIER one (requests are served
+   in the order of their serials): "exactly one done response once enough chunks were
+   requested", together with C17_session_content. *)
 Theorem C17_requests_complete : forall cfg db ops,
   sorted_keys db ->
   let st := fst (run v_fixed cfg db (init cfg) ops) in
   let tr := snd (run v_fixed cfg db (init cfg) ops) in
   st_reader st = RIdle ->
   forall r, In r (enqs tr) ->
-    N.of_nat (length (filter (fun r' => r_serial (rs_req r') =? r_serial (rs_req r)) (enqs tr)))
-      = r_chunks (rs_req r)
-    \/ exists r', In r' (enqs tr) /\ rs_inc r' = rs_inc r /\ rs_done r' = true.
-Proof. exact requests_complete. Qed.
+    count_serial (ser r) (enqs tr) = r_chunks (rs_req r)
+    \/ exists r', In r' (enqs tr) /\ rs_inc r' = rs_inc r /\ rs_done r' = true /\ ser r' <= ser r.
+Proof. exact requests_complete_strong. Qed.
+
+(* In every reachable state no request, finished or not, has got more responses than the
+   chunks it asked for. *)
+Theorem C17_requests_never_exceed : forall cfg db ops,
+  sorted_keys db ->
+  let tr := snd (run v_fixed cfg db (init cfg) ops) in
+  forall r, In r (enqs tr) -> count_serial (ser r) (enqs tr) <= r_chunks (rs_req r).
+Proof. exact requests_never_exceed. Qed.
 
 (* ... and while a request is being served it has produced i <= MaxChunks responses *)
 Theorem C17_requests_bounded : forall cfg db ops,
@@ -144,7 +177,9 @@ Print Assumptions C17_spec_equal_decides.
 Print Assumptions C17_peer_sessions_exact.
 Print Assumptions C17_session_resumable.
 Print Assumptions C17_resume_no_creation.
+Print Assumptions C17_lifetime_simulation.
 Print Assumptions C17_requests_complete.
 Print Assumptions C17_requests_bounded.
+Print Assumptions C17_requests_never_exceed.
 Print Assumptions C17_pending_bound.
 Print Assumptions C17_fifo.
